@@ -2,6 +2,7 @@
 import OlVerif.Json
 import OlVerif.Unparse.StrLit
 import OlVerif.Lower.Stmt
+import OlVerif.Lower.Reject
 import OlVerif.Api.Model
 import OlVerif.Ctrl.Run
 
@@ -87,9 +88,10 @@ def opLower (j : Json) : Json :=
     let cfg ← cfgOfJson (← j.getObjVal? "cfg")
     let sym ← symScopeOfJson (← j.getObjVal? "sym")
     let body ← (← jArr (← j.getObjVal? "body")).toList.mapM stmtOfJson
+    -- `bad`: the hypothesis of C08.reject_at_any_depth, evaluated on this program
     match lowerFull cfg sym body with
-    | .ok e => pure (Json.mkObj [("ok", exprToJson e)])
-    | .error err => pure (Json.mkObj [("err", .str err.cls)])
+    | .ok e => pure (Json.mkObj [("ok", exprToJson e), ("bad", .bool (badModule body))])
+    | .error err => pure (Json.mkObj [("err", .str err.cls), ("bad", .bool (badModule body))])
   match r with
   | .ok j => j
   | .error e => errJ e
